@@ -442,6 +442,14 @@ def rewrite_history(exe, rng, idx):
         # mostly rules for the one vendor the messages carry, some for another one (a table is kept in configuration order: rules of
         # one vendor may stand on both sides of another vendor's)
         cfg.rewrites.append(W.rand_rewrite(rng, "rw%d" % i, vendors=(vend, vend, {311: 9, 9: 27262, 27262: 311}[vend]), grow=True))
+    if idx % 2 == 0:
+        # in every second history one block is nothing but a removal (or whitelist) table in which the rules of the vendor the messages
+        # carry stand on both sides of another vendor's rule
+        other = {311: 9, 9: 27262, 27262: 311}[vend]
+        blk = W.Rewrite("rw%d" % (idx // 2 % 3))
+        blk.wl = idx % 8 == 0
+        blk.rmv = [(vend, [1, 2, 16, 17][idx // 2 % 4]), (other, 5), (vend, [2, 1, 17, 16][idx // 2 % 4])]
+        cfg.rewrites[idx // 2 % 3] = blk
     h = Hist(exe, rng, cfg)
     for _ in range(rng.randrange(10, 40)):
         if h.s.dead:
